@@ -253,7 +253,7 @@ def fill_roundtrip(ctx, rng, tmp, read_elast_data):
     from cij.util import c_
     exports = fillspec.cached_exports(ctx)
     keys21 = [(i, j) for i in range(1, 7) for j in range(i, 7)]
-    vols = [600.1234, 550.5071, 500.2509]
+    vols = [1600.123412, 1550.507109, 1500.250936]           # ten significant digits, six decimals
     fac = [Fraction(1003, 1000), Fraction(987, 1000), Fraction(1021, 1000)]   # three-decimal factors on (half-)integer tensors: payloads with four decimals
     for s in fillspec.SYSTEMS:
         for variant in ("exported", "touching_zero", "subset"):
@@ -285,7 +285,7 @@ def fill_roundtrip(ctx, rng, tmp, read_elast_data):
             lat = bool(rng.random() < 0.6)
             lines = [f"static table for {s}", "612.5 3 101.25", "V " + " ".join(SYMS[n - 1] for n in supplied)]
             for i, t in enumerate(rows):
-                lines.append(f"{vols[i]:.4f} " + " ".join(f"{float(t[n - 1]):.4f}" for n in supplied))
+                lines.append(f"{vols[i]:.6f} " + " ".join(f"{float(t[n - 1]):.4f}" for n in supplied))
             if lat:
                 lines.append("lattice")
                 for i in range(3):
@@ -307,6 +307,13 @@ def fill_roundtrip(ctx, rng, tmp, read_elast_data):
                 ref = read_elast_data(str(f))
             except Exception as ex:
                 ctx.violation(f"output of cij fill -s {s} is not a valid static table: {ex!r}", {"output": r.output}, {"clause": "fill_output_invalid", **sig})
+                continue
+            # reading the input file AGAIN (after the command has read and filled it in this process) yields what is tabulated: the supplied
+            # components with the printed values, nothing else
+            tab = [{c_(*keys21[n - 1]): float(f"{float(rows[i][n - 1]):.4f}") for n in supplied} for i in range(3)]
+            if any(dict(v.static_elastic_modulus) != tab[i] for i, v in enumerate(ref.volumes)):
+                ctx.violation(f"read_elast_data of the input of `cij fill -s {s}` (read again after the command ran) is not the tabulated table: components "
+                              f"{sorted(str(k) for k in ref.volumes[0].static_elastic_modulus)}", {"input": "\n".join(lines)}, {"clause": "reread_after_fill", **sig})
                 continue
             # the filled tensor per volume, from the specification: every component that does not vanish at all volumes
             present = [n for n in range(1, 22) if any(abs(float(rows[i][n - 1])) > 5e-5 for i in range(3))]
